@@ -133,6 +133,17 @@ Theorem C18_hist_judge_model : forall val t h s l ids p, tmps_ok t h = true -> h
 Proof. exact hist_ok_model. Qed.
 Print Assumptions C18_hist_judge_model.
 
+(* quick store / read sequences on one long-lived store object (every store completes, reads follow): the
+   judge - every read returns the value stored last - is the history judge on the all-Done history *)
+Theorem C18_reads_judge_is_hist : forall l p,
+  reads_ok l = hist_ok p (map (fun x : N * reading => (fst x, Done, snd x)) l).
+Proof. exact reads_ok_is_hist. Qed.
+Print Assumptions C18_reads_judge_is_hist.
+
+Theorem C18_reads_judge_sound : forall l, reads_ok l = true -> forall v r, In (v, r) l -> r = RVal v.
+Proof. exact reads_ok_sound. Qed.
+Print Assumptions C18_reads_judge_sound.
+
 (* the recogniser [determined] used on observed traces: what such a trace leaves in the target does not
    depend on any other file of the directory; the repaired protocol passes it *)
 Theorem C18_leftovers_irrelevant : forall t tr s1 s2, determined [t] tr = true -> s1 t = s2 t ->
@@ -196,6 +207,9 @@ Example C18_nonvacuous :
   run (apply (apply s (OpenKeep 7%N)) (WriteAt 7%N 0 [4; 5; 6; 7]%N)) (store_keep 7%N 0%N [8]%N) 0%N = Some [8; 5; 6; 7]%N /\
   hist_ok (RVal 0) [(1%N, Died, RVal 0%N); (2%N, Done, RVal 2%N)] = true /\
   hist_ok (RVal 0) [(1%N, Died, RVal 0%N); (2%N, Done, ROther)] = false /\
+  (* store 1, read, store 2 (same length, same timestamp tick), read: the second read must see 2 *)
+  reads_ok [(1%N, RVal 1%N); (2%N, RVal 2%N)] = true /\
+  reads_ok [(1%N, RVal 1%N); (2%N, RVal 1%N)] = false /\
   safe_topo (mkTopo [mkPeer "QmA"%string ["/dns4/r1/tcp/9000"%string]; mkPeer "QmB"%string []] 2) = true /\
   parse_topo (print_topo (mkTopo [mkPeer "QmA"%string ["/dns4/r1/tcp/9000"%string]; mkPeer "QmB"%string []] 2))
   = Some (mkTopo [mkPeer "QmA"%string ["/dns4/r1/tcp/9000"%string]; mkPeer "QmB"%string []] 2).
